@@ -11,7 +11,10 @@ EXPLANATION = ("Theorems in Jose/Props/C08.lean are unconditional and for all le
                "(Jose/B64.lean) to lib/b64.c and evaluates the property directly against Python's base64 module.")
 ASSUMPTIONS = ["Python's base64 module implements RFC 4648 (independent oracle for P)",
                "jansson 2.14 json_loadb/json_dumps behave as modelled in Jose/JsonParse.lean / Jose/Json.lean "
-               "(checked by the b64.dec_load / b64.enc_dump operations on generated JSON)"]
+               "(checked by the b64.dec_load / b64.enc_dump operations on generated JSON)",
+               "jansson 2.14's lexer loses a raw NUL byte that directly follows a number or a literal (its push-back buffer is "
+               "NUL-terminated): it accepts the decoded text '5\\0' as 5 and '[1\\0]' as [1]; the model's parser refuses both. "
+               "Texts with a raw NUL in that position are not generated (NUL elsewhere is, and agrees)"]
 BUDGET = {"quick": 300, "thorough": 3000}
 
 ALPHA = b"ABCDEFGHIJKLMNOPQRSTUVWXYZabcdefghijklmnopqrstuvwxyz0123456789-_"
@@ -220,6 +223,17 @@ def gen_json(ctx):
     ops.append(("b64.enc_dump", {}))
     ops.append(("b64.dec_load", {}))
     ops.append(("b64.dec", {}))
+    # size queries (NULL output) on text that is not canonical: length 1 mod 4, characters outside the alphabet
+    for t in ("A", "AAAAA", "AAAAAAAAA", "A=", "A*AA", "AA\n", "====", "AAA\x00", "+/+/"):
+        ops.append(("b64.dec_buf", {"in": t.encode("latin-1").hex()}))
+        ops.append(("b64.dec", {"j": t}))
+    # decoded text with a raw NUL in or behind the JSON value; numbers with fraction / exponent inside containers
+    # (not generated: a raw NUL directly behind a number or literal - jansson's lexer loses it in its NUL-terminated
+    #  push-back buffer and accepts b'5\x00' and b'[1\x00]'; the model's parser does not mirror that, see ASSUMPTIONS)
+    for tb in (b'{"a":1}\x00x', b'\x00', b'"a\x00b"', b'{"a":1}\x00', b'{"a":"b"\x00}', b'["x"\x00]', b'[1.5,{"a":-0.25,"b":1e+30,"c":0.1}]', b'{"r":2.0,"s":1E2}'):
+        ops.append(("b64.dec_load", {"j": ref_enc(tb).decode()}))
+    for v in ([1.5, {"a": -0.25, "b": 0.5}], {"r": 2.5}):
+        ops.append(("b64.enc_dump", {"j": v}))
     for t in TEXTS:
         tb = t.encode("latin-1") if any(ord(c) > 0x7f and ord(c) < 0x100 and t in ('\xff',) for c in t) else t.encode("utf-8")
         ops.append(("b64.dec_load", {"j": ref_enc(tb).decode()}))
@@ -274,10 +288,20 @@ def run_stream(ctx):
             ops.append(("io.run", {"chain": [kind, ["malloc"]], "feeds": C07.split(data, C07.rand_parts(rng, len(data), [3, 4]))}))
         # text the decoder must refuse, streamed
         for bad in (txt + b"=", txt + b"A" if len(txt) % 4 == 0 else txt[:-1] + b"*", txt[:1] + b" " + txt[1:], txt + b"\n", b"+" + txt, txt + b"\x00"):
-            if len(txt) % 4 == 0 and bad == txt + b"A":
-                continue       # one more character may still be canonical only by accident of its bits: covered by the buffer forms
             for parts in ([len(bad)], [1] * len(bad)):
                 ops.append(("io.run", {"chain": ["b64dec", ["malloc"]], "feeds": C07.split(bad, parts)}))
+        # text over the alphabet only that is not canonical: one dangling character (length 1 mod 4), unused final bits set
+        alpha = b"ABCDEFGHIJKLMNOPQRSTUVWXYZabcdefghijklmnopqrstuvwxyz0123456789-_"
+        bads = [txt + b"A"] if len(txt) % 4 == 0 else []
+        if len(txt) % 4 in (2, 3):
+            bads.append(txt[:-1] + bytes([alpha[alpha.index(txt[-1]) | 1]]) if alpha.index(txt[-1]) & 1 == 0 else txt[:-1] + bytes([alpha[alpha.index(txt[-1]) ^ 1 | 1]]))
+            bads.append(txt[:-1] + bytes([alpha[(alpha.index(txt[-1]) | (2 if len(txt) % 4 == 3 else 8))]]))
+        for bad in bads:
+            if bad == txt:
+                continue
+            for sink in (["malloc"], ["buffer", n + 3]):
+                for parts in ([len(bad)], [1] * len(bad), C07.rand_parts(rng, len(bad), [3, 4, 64])):
+                    ops.append(("io.run", {"chain": ["b64dec", sink], "feeds": C07.split(bad, parts)}))
     ctx.compare(ops, C07.p_check, lambda o, a, r: json.dumps(a, sort_keys=True), canon=C07.canon)
     ctx.count("stream-vs-buffer", len(ops))
 
